@@ -159,14 +159,6 @@ def foreign_name_arg(case, failure):
             and failure.get("expected") != failure.get("observed"))
 
 
-def required_removed_through_optional_member(case, failure):
-    """class predicate of KF-C10-b: the required key went missing in a `del`/`pop` of exactly that key, and the
-    member stored under it said optional=True although its field schema says optional=False"""
-    return (failure.get("clause") == "required-fields-present" and failure.get("kind") == "sparse"
-            and failure.get("removed_by") in ("delitem", "pop") and failure.get("removed_key") == failure.get("key")
-            and failure.get("member_optional") is True and failure.get("field_optional") is False)
-
-
 # ---------------------------------------------------------------- the property
 
 def _scalar(cid, k, name, opt=False, default=None):
@@ -194,14 +186,15 @@ class C10(Property):
         "Flatland.C10.Proofs.named_after_key",
         "Flatland.C10.Proofs.undeclared_rejected",
         "Flatland.C10.Proofs.C10_full_fails",
-        "Flatland.C10.Proofs.C10_runClassOnly_fails",
+        "Flatland.C10.Proofs.required_survives_optional_member",
     ]
     level_text = "proof (partial)"
     level_note = ("THEOREM (partial): mapinv_init/mapinv_step/mapinv_run — the mapping invariant holds initially and is "
                   "preserved by every dict-protocol call of the model, accepted or rejected, under ArgExact: an Element "
-                  "argument that passes isinstance is of the field class itself AND carries no instance-level optional=/"
-                  "name= override. Without it the statement is refuted: C10_full_fails (renamed subclass, KF-C10-a) and "
-                  "C10_runClassOnly_fails (exact class with optional=True deletes a required key, KF-C10-b). "
+                  "argument that passes isinstance is of the field class itself AND carries no instance-level name= "
+                  "override (instance-level optional= is allowed since /repo 6e22928: del/pop consult the field schema; "
+                  "required_survives_optional_member is the former KF-C10-b counter-example as a theorem). Without "
+                  "ArgExact the statement is refuted: C10_full_fails (renamed subclass / foreign name, KF-C10-a). "
                   "undeclared_rejected is a theorem for setitem/del/pop/setdefault/get only. On model paths answering "
                   "`unsupported` (Element handed to a dense Dict whose child is a container, non-empty list handed to "
                   "Dict.set ...) the step theorem is vacuous: the node is unchanged. ORACLE ONLY: rejection of undeclared "
@@ -215,8 +208,8 @@ class C10(Property):
     assumptions = [
         "Compound (DateYYYYMMDD) roots and the flat routes are generated and checked by the Python oracle only; "
         "Compound's compose/explode logic belongs to C18",
-        "the model follows containers.py as it is: SparseDict.__delitem__/pop read the MEMBER's optional (instance "
-        "attribute), `.name` is the instance's",
+        "the model follows containers.py as it is: SparseDict.__delitem__/pop consult the field schema's optional "
+        "(the member's only for an undeclared key), `.name` is the instance's",
         "field names are non-empty and distinct (Dict.of enforces distinctness)",
         "Element arguments are fresh or detached (no aliasing)",
     ]
@@ -267,8 +260,8 @@ class C10(Property):
                                                                                   ["y", {"new": 8, "foreign": True}]]}),
                                 _op({"op": "pop", "k": "x"}),
                                 _op({"op": "update_items", "form": form, "items": [["x", {"pool": 0}], ["y", {"pool": 0}]]})]})
-        # open KF-C10-b: a REQUIRED field is deleted / popped through a member whose own `optional` is True:
-        # an instance of the field class itself built with optional=True, and an instance of a using(optional=True) subclass
+        # fixed 6e22928 (was KF-C10-b): a REQUIRED field could be deleted / popped through a member whose own `optional`
+        # is True: an instance of the field class itself built with optional=True, or of a using(optional=True) subclass
         SR = _map("sparse", [a], minreq=True)
         out.append({"schema": SR, "init": {"route": "ctor", "value": None},
                     "ops": [_op({"op": "setitem", "k": "a", "a": {"new": "v", "inst_optional": True}}),
@@ -366,8 +359,6 @@ class C10(Property):
     def classify(self, case, failure):
         if foreign_name_arg(case, failure):
             return "KF-C10-a"
-        if required_removed_through_optional_member(case, failure):
-            return "KF-C10-b"
         return None
 
     def has_model(self, case):
